@@ -137,7 +137,14 @@ func judgeServer(b []byte, obs []srv.Obs, res sconn.Result, end sconn.End) (stri
 			if ri < len(strict) {
 				sr := strict[ri]
 				o := obs[idx]
-				if o.Method != sr.Method || o.URI != sr.Target || (o.BodyErr == "" && string(o.Body) != string(sr.Body)) {
+				// a multipart/form-data body is pre-parsed and Body() returns the re-marshalled form: compare framing only
+				multipart := false
+				for _, v := range wire.Get(sr.Headers, "Content-Type") {
+					if strings.HasPrefix(strings.ToLower(v), "multipart/form-data") {
+						multipart = true
+					}
+				}
+				if o.Method != sr.Method || o.URI != sr.Target || (o.BodyErr == "" && !multipart && string(o.Body) != string(sr.Body)) {
 					return "prefix", fmt.Sprintf("the first %d requests of the input are well-formed, but request #%d was delivered to the handler as %s %s body %s (err %q); the strict reader says %s %s body %s",
 						len(strict), ri, o.Method, o.URI, srv.Short(o.Body), o.BodyErr, sr.Method, sr.Target, srv.Short(sr.Body))
 				}
